@@ -623,9 +623,12 @@ impl Generator {
                 let n = [1usize, 1, 1, 2, 2, 3][rng.usize_below(6)];
                 let installed_morx = t.surgery.iter().any(|s| matches!(s, Surgery::InstallMorx { .. }));
                 let installed_kern = t.surgery.iter().any(|s| matches!(s, Surgery::InstallKern { .. }));
+                let installed_vargpos = t.surgery.iter().any(|s| matches!(s, Surgery::InstallVarGpos { .. }));
                 let targets: Vec<String> = (0..2)
                     .map(|_| {
-                        if installed_kern && rng.pct(75) {
+                        if installed_vargpos && rng.pct(75) {
+                            if rng.pct(50) { "GDEF".to_string() } else { "GPOS".to_string() }
+                        } else if installed_kern && rng.pct(75) {
                             "kern".to_string()
                         } else if installed_morx && rng.pct(75) {
                             "morx".to_string()
@@ -1394,11 +1397,18 @@ fn gen_install(rng: &mut Rng, info: &FontInfo, prop: &str) -> Option<(FontInfo, 
         "C09" => (0, 0, 0, 6, 22, 4, 10),
         _ => (7, 4, 8, 6, 6, 3, if info.axes > 0 { 20 } else { 4 }),
     };
+    let p_vargpos = match prop {
+        "C02" => 45,
+        "C03" => 40,
+        "C09" => 0,
+        _ => 15,
+    };
     let mut surgeries = Vec::new();
     let mut focus: Option<Vec<u32>> = None;
-    let want_morx = rng.pct(p_morx);
-    let want_kern = !want_morx && rng.pct(p_kern);
-    if (want_morx || want_kern) && info.char_gids.len() >= 4 && info.num_glyphs >= 3 {
+    let want_vargpos = info.axes > 0 && rng.pct(p_vargpos);
+    let want_morx = !want_vargpos && rng.pct(p_morx);
+    let want_kern = !want_vargpos && !want_morx && rng.pct(p_kern);
+    if (want_morx || want_kern || want_vargpos) && info.char_gids.len() >= 2 && info.num_glyphs >= 3 {
         // a run of neighbouring mapped characters with distinct non-zero glyph ids
         let want = 3 + rng.usize_below(22);
         let start = rng.usize_below(info.char_gids.len());
@@ -1418,7 +1428,12 @@ fn gen_install(rng: &mut Rng, info: &FontInfo, prop: &str) -> Option<(FontInfo, 
                 // order other than first appearance
                 glyphs.reverse();
             }
-            if want_morx {
+            if want_vargpos {
+                surgeries.push(Surgery::InstallVarGpos {
+                    glyphs,
+                    variant: rng.below(1 << 16),
+                });
+            } else if want_morx {
                 surgeries.push(Surgery::InstallMorx {
                     glyphs,
                     variant: rng.below(1 << 20),
@@ -1497,6 +1512,10 @@ fn gen_install(rng: &mut Rng, info: &FontInfo, prop: &str) -> Option<(FontInfo, 
             modified.gsub_features.clear();
         } else {
             modified.gpos_features.clear();
+        }
+        if want_vargpos {
+            modified.gpos_features = vec![(crate::trace::tag_from_str("kern"), vec![0, 1])];
+            modified.scripts = vec!["latn".to_string(), "DFLT".to_string()];
         }
     }
     Some((modified, surgeries))
